@@ -203,41 +203,54 @@ Grad0(l) == IF l \in call.pre THEN PreGrad(P[l].size) ELSE None
 CutProg == [n \in 1..Len(P) |-> IF n \in Range(mt.feats)
                                  THEN [op |-> "leaf", size |-> Sizes(P)[n], val |-> Vals(P)[n], rg |-> TRUE]
                                  ELSE P[n]]
+\* Forward-mode tables, computed once per evaluation (TLC caches LET definitions):
+\*   cj = FwdJac(CutProg)  (features independent),  fj = FwdJac(P)
+Tables == [cj |-> Force(FwdJac(CutProg)), fj |-> Force(FwdJac(P)), cp |-> CutProg]
 \* d loss_i / d f  (1 x size(f)), features independent
-DLossDFeat(i, f) == TrueJac(CutProg, <<mt.losses[i]>>, <<f>>)[1]
+DLossDFeatT(T, i, f) == PickCols(T.cp, T.cj[mt.losses[i]][1], <<f>>)
+DLossDFeat(i, f) == DLossDFeatT(Tables, i, f)
+\* d f / d s  (size(f) x size(s))
+DFeatDSharedT(T, f, s) == [r \in 1..Len(T.fj[f]) |-> PickCols(P, T.fj[f][r], <<s>>)]
 \* row i of the Jacobian w.r.t. shared leaf s: sum_f (d loss_i/d f) . (d f/d s)
-RowBlock(i, s) ==
-    LET contrib(f) == VecMat(DLossDFeat(i, f), TrueJac(P, <<f>>, <<s>>), P[s].size)
+RowBlockT(T, i, s) ==
+    LET contrib(f) == VecMat(DLossDFeatT(T, i, f), DFeatDSharedT(T, f, s), P[s].size)
         RECURSIVE Acc(_)
         Acc(fs) == IF fs = <<>> THEN Zeros(P[s].size) ELSE VAdd(contrib(Head(fs)), Acc(Tail(fs)))
     IN  Acc(mt.feats)
-SharedUpdate(s) == VecMat(call.w, [i \in 1..NTasks |-> RowBlock(i, s)], P[s].size)
+RowBlock(i, s) == RowBlockT(Tables, i, s)
+SharedUpdateT(T, s) == VecMat(call.w, [i \in 1..NTasks |-> RowBlockT(T, i, s)], P[s].size)
+SharedUpdate(s) == SharedUpdateT(Tables, s)
 \* total derivative of loss_i w.r.t. a task parameter
-TaskGrad(i, p) == TrueJac(P, <<mt.losses[i]>>, <<p>>)[1]
-TaskUpdate(p)  == LET RECURSIVE Acc(_)
-                      Acc(i) == IF i = 0 THEN Zeros(P[p].size)
-                                ELSE IF p \in mt.tparams[i] THEN VAdd(TaskGrad(i, p), Acc(i - 1)) ELSE Acc(i - 1)
-                  IN  Acc(NTasks)
+TaskGradT(T, i, p) == PickCols(P, T.fj[mt.losses[i]][1], <<p>>)
+TaskUpdateT(T, p) == LET RECURSIVE Acc(_)
+                         Acc(i) == IF i = 0 THEN Zeros(P[p].size)
+                                   ELSE IF p \in mt.tparams[i] THEN VAdd(TaskGradT(T, i, p), Acc(i - 1)) ELSE Acc(i - 1)
+                     IN  Acc(NTasks)
+TaskUpdate(p) == TaskUpdateT(Tables, p)
 AllTaskParams == UNION {mt.tparams[i] : i \in 1..NTasks}
-Expected(l) == IF l \in call.inputs THEN Plus(Grad0(l), SharedUpdate(l))
-               ELSE IF l \in AllTaskParams THEN Plus(Grad0(l), TaskUpdate(l))
-               ELSE Grad0(l)
+ExpectedT(T, l) == IF l \in call.inputs THEN Plus(Grad0(l), SharedUpdateT(T, l))
+                   ELSE IF l \in AllTaskParams THEN Plus(Grad0(l), TaskUpdateT(T, l))
+                   ELSE Grad0(l)
+Expected(l) == ExpectedT(Tables, l)
 
-Deposits == phase = "done" => \A l \in Leaves(P) : grad[l] = Expected(l)
+Deposits == phase = "done" => LET T == Tables IN \A l \in Leaves(P) : grad[l] = ExpectedT(T, l)
 
 \* the stacked cotangents equal the cut-program derivatives (Stack: row i belongs to task i)
 StackIsTrue == phase = "jac" =>
-                  \A f \in Range(mt.feats), i \in 1..NTasks : d.map[f][i] = DLossDFeat(i, f)
+                  LET T == Tables IN
+                  \A f \in Range(mt.feats), i \in 1..NTasks : d.map[f][i] = DLossDFeatT(T, i, f)
 
 \* C05 (mtl part): shared parameters get what torch.autograd.backward(features, grad_tensors =
 \* sum_i w_i dloss_i/df) gives; one reverse sweep
 TwinAutograd == phase = "done" =>
-    LET ct == [f \in Range(mt.feats) |->
+    LET T  == Tables
+        ct == [f \in Range(mt.feats) |->
                  LET RECURSIVE Acc(_)
                      Acc(i) == IF i = 0 THEN Zeros(Sizes(P)[f])
-                               ELSE VAdd(VScale(call.w[i], DLossDFeat(i, f)), Acc(i - 1))
+                               ELSE VAdd(VScale(call.w[i], DLossDFeatT(T, i, f)), Acc(i - 1))
                  IN  Acc(NTasks)]
-    IN  \A s \in call.inputs : SharedUpdate(s) = VJPAll(P, ct)[s]
+        adj == VJPAll(P, ct)
+    IN  \A s \in call.inputs : SharedUpdateT(T, s) = adj[s]
 
 TypeOK == WellFormed(P) /\ phase \in {"build", "heads", "tasks", "jac", "agg", "acc", "done"}
 
@@ -251,8 +264,8 @@ Scenario == [prog |-> P, feats |-> mt.feats, losses |-> mt.losses,
              tparams |-> [i \in 1..NTasks |-> mt.tparams[i]], shared |-> call.inputs,
              k |-> call.k, w |-> call.w, pre |-> call.pre,
              pregrad |-> [l \in call.pre |-> PreGrad(P[l].size)],
-             jac |-> [s \in call.inputs |-> [i \in 1..NTasks |-> RowBlock(i, s)]],
-             expected |-> [l \in 1..Len(P) |-> IF l \in Leaves(P) THEN Expected(l) ELSE None]]
+             jac |-> LET T == Tables IN [s \in call.inputs |-> [i \in 1..NTasks |-> RowBlockT(T, i, s)]],
+             expected |-> LET T == Tables IN [l \in 1..Len(P) |-> IF l \in Leaves(P) THEN ExpectedT(T, l) ELSE None]]
 ScnHash == 3 * Len(P) + 5 * Cardinality(call.inputs) + 7 * call.k + 17 * Cardinality(call.pre)
            + 13 * SumSeq([i \in 1..Len(P) |-> IF P[i].op = "leaf" THEN P[i].size + i
                                                ELSE i * P[i].a + (IF P[i].op \in Binary THEN 3 * P[i].b ELSE 1)])
